@@ -607,6 +607,7 @@ func (r *reporter) Close() (err error) {
 
 	// Wait for any pending reports to complete.
 	for r.pending.Load() > 0 {
+		verifhook.Point(verifhook.M3CloseSpin)
 		runtime.Gosched()
 	}
 	verifhook.Point(verifhook.M3CloseDrained)
